@@ -78,3 +78,10 @@ CLAIMED["C18"] = (
     _TRUST + " Front-ends are driven in-process; low-iteration password hashes; refusals are assumed not to be recorded as failures (as the code and DESIGN.md state).",
     "DESIGN.md section 4 C18",
 )
+CLAIMED["C09"] = (
+    "exploration",
+    "property-based testing: Hypothesis-generated hostile mailbox names x commands x encodings inside a jail with decoy neighbours; oracle = recursive before/after snapshot of everything outside the mail root, refusal of lexically escaping names, and absence of decoy secrets/counts/names in responses",
+    "Every name-taking command is exercised with generated escaping names (.., ../x, a/../../x, absolute and doubled-slash paths to things that really exist in the jail) in atom, quoted, literal and literal+ form; the file system outside the user's root must be bit-identical afterwards and no response may leak the decoys.",
+    _TRUST + " No symlinks are planted inside the mail root.",
+    "DESIGN.md section 4 C09",
+)
